@@ -260,6 +260,34 @@ func (ck *Check) nonNegative(v ssa.Value, seen map[ssa.Value]bool, depth int) bo
 		}
 	case *ssa.Call:
 		return ck.resultNonNegative(x, 0, seen, depth)
+	case *ssa.Parameter:
+		// a parameter of an unexported repo function that is only called statically: non-negative
+		// when every call site's argument is (a metric accessor `recordPodsEvicted(n int)`)
+		fn := x.Parent()
+		if fn == nil || !ck.P.inRepo(fn) || fn.Object() == nil || fn.Object().Exported() || fn.Signature.Recv() != nil {
+			return false
+		}
+		idx := -1
+		for i, p := range fn.Params {
+			if p == x {
+				idx = i
+			}
+		}
+		sites := ck.P.staticSitesOf(fn)
+		if idx < 0 || len(sites) == 0 {
+			return false
+		}
+		for _, g := range ck.P.addressTaken() {
+			if g == fn {
+				return false
+			}
+		}
+		for _, ci := range sites {
+			if idx >= len(ci.Common().Args) || !ck.nonNegative(ci.Common().Args[idx], seen, depth+1) {
+				return false
+			}
+		}
+		return true
 	case *ssa.Field:
 		// a field of a structure value (the count of a result structure)
 		return ck.structFieldNonNeg(x.X, x.Field, seen, depth)
@@ -556,6 +584,33 @@ func (ck *Check) libraryPreconditions(rule string, fns []*ssa.Function) {
 					counts["ticker"]++
 					k, ok := cc.Args[0].(*ssa.Const)
 					ck.cond(ok && k.Value != nil && constant.Sign(k.Value) > 0, rule, mk("ticker"), pos, funcID(fn), "time.NewTicker on scan paths is given a positive constant", cc.Args[0].String(), "a non-positive interval panics")
+				case pkgPathOfFn(f) == "k8s.io/apimachinery/pkg/util/wait" && strings.HasPrefix(f.Name(), "Poll"):
+					// wait.Poll and friends arm their timeout only when it is non-zero: a zero timeout
+					// polls forever; the variants without a timeout do so by design
+					counts["poll"]++
+					idx := -1
+					switch f.Name() {
+					case "Poll", "PollImmediate":
+						idx = 1
+					case "PollWithContext", "PollImmediateWithContext", "PollUntilContextTimeout":
+						idx = 2
+					}
+					key := mk("poll")
+					if idx < 0 || idx >= len(cc.Args) {
+						ck.fail(rule, key, pos, funcID(fn), "a poll on a scan path has a timeout", f.Name(), "the scan waits for as long as the condition stays false")
+						break
+					}
+					tv := cc.Args[idx]
+					okT := false
+					if k, isC := tv.(*ssa.Const); isC && k.Value != nil && constant.Sign(k.Value) > 0 {
+						okT = true
+					} else if call, isCall := in.(*ssa.Call); isCall {
+						okT, _, _ = ck.liftedEntails(fn, call, func(ctx *Ctx) []LinFact {
+							return []LinFact{{A: zeroTerm(tv.Type()), B: ctx.Term(tv), K: 1, Text: "0 < timeout"}}
+						})
+					}
+					ck.cond(okT, rule, key, pos, funcID(fn), "the timeout of a poll on a scan path is positive on every path (a zero timeout polls forever)", tv.String(),
+						"with a timeout of 0 the poll never gives up: the scan does not return while the condition stays false")
 				case full == "(*sync.RWMutex).Lock" || full == "(*sync.RWMutex).RLock" || full == "(*sync.Mutex).Lock":
 					counts["mutex"]++
 					want := map[string]string{"Lock": "Unlock", "RLock": "RUnlock"}[f.Name()]
